@@ -35,7 +35,7 @@ ASSUMPTIONS = [
     "exact comparison of results (same floating-point operations in both worlds)",
 ]
 
-FAULT_KINDS = ["cache_delete", "cache_warm", "tolerance_flip", "tolerance_restore", "caller_edits_returned_result", "in_place_mutator"]
+FAULT_KINDS = ["cache_delete", "cache_warm", "tolerance_flip", "tolerance_restore", "caller_edits_returned_result", "in_place_mutator", "address_reuse"]
 
 PROBES = [
     "table_deleted_then_rebuilt", "one_table_of_a_joint_group_deleted_siblings_alive", "operation_after_cache_deletion", "operation_inside_tolerance_flip",
